@@ -729,14 +729,12 @@ Theorem marker_names_following_construct opt p prog is :
   forall pre l post, is = pre ++ IMarker l :: post ->
   exists k i post', post = i :: post' /\ In k (program_constructs prog) /\ kline k = l /\ shows k i.
 Proof. intros H. apply announced_at. eapply emit_program_announced; exact H. Qed.
-Print Assumptions marker_names_following_construct.
 
 Theorem script_marker_names_following_construct p tl name glob opt body is :
   emit_script (Some p) tl name glob opt body = Ok is ->
   forall pre l post, is = pre ++ IMarker l :: post ->
   exists k i post', post = i :: post' /\ In k (body_constructs body) /\ kline k = l /\ shows k i.
 Proof. intros H. apply announced_at. eapply emit_script_announced; exact H. Qed.
-Print Assumptions script_marker_names_following_construct.
 
 (* the text of a marker: "# <line> "<path with backslashes doubled>"" *)
 Theorem marker_text path line :
@@ -1143,19 +1141,6 @@ Proof.
   eapply SAME; [apply advs_step, advs_refl|exact H].
 Qed.
 End MSITES2.
-Print Assumptions command_marker_site.
-Print Assumptions label_marker_site.
-Print Assumptions condition_marker_site.
-Print Assumptions condition_autovar_marker_site.
-Print Assumptions switch_marker_site.
-Print Assumptions switch_cases_marker_site.
-Print Assumptions text_marker_site.
-Print Assumptions movement_marker_site.
-Print Assumptions mart_marker_site.
-Print Assumptions raw_marker_site.
-Print Assumptions mapscript_marker_site.
-Print Assumptions table_entry_marker_site.
-Print Assumptions inline_text_marker_site.
 
 (* ====================================================================================================================== *)
 (* PART C: every line recorded in the AST of an accepted program is the line of a token of the stream                     *)
@@ -1815,8 +1800,6 @@ Proof.
   - apply LK_origin. unfold LK. rewrite Forall_map. apply Forall_app. split; assumption.
 Qed.
 End LINES.
-Print Assumptions block_lines_from_stream.
-Print Assumptions program_lines_from_stream.
 
 (* ---------- the real format() operator returns a token of the stream ---------- *)
 Lemma format_token_in_stream fc cli_font cli_maxlen ee ts tk v sty ts' :
@@ -1913,7 +1896,6 @@ End RAWLEX.
 Theorem raw_strings_located is_letter_hi is_digit_hi is_space_hi (s : text) :
   Forall (raw_located s) (lex is_letter_hi is_digit_hi is_space_hi s).
 Proof. unfold lex. apply lex_all_raw. right. apply LexPos.P_init. Qed.
-Print Assumptions raw_strings_located.
 
 (* ====================================================================================================================== *)
 (* the whole pipeline: lexer, parser, emitter                                                                             *)
@@ -2009,10 +1991,6 @@ Proof.
   eapply markers_name_source_lines; eassumption.
 Qed.
 End PIPELINE.
-Print Assumptions constructs_on_source_lines.
-Print Assumptions markers_name_source_lines.
-Print Assumptions compile_markers_name_source_lines.
-Print Assumptions markers_in_range.
 
 (* ====================================================================================================================== *)
 (* the hypotheses are satisfiable: concrete inputs                                                                         *)
